@@ -58,7 +58,9 @@ class Boom(Exception):
     pass
 
 
-OPS = ["arm", "ml", "ml+adds", "remove", "enter", "leave", "leave-exc", "probe-load", "probe-loads"]
+# rated LIKELY_SAFE by the analysis, but the stock unpickler raises on it (a Python 2 byte string that is not ASCII): a load that fails half way
+RAISING_BENIGN = b"\x80\x02U\x01\xe9q\x00."
+OPS = ["arm", "ml", "ml+adds", "remove", "enter", "leave", "leave-exc", "probe-load", "probe-loads", "probe-load-that-raises"]
 
 
 def run_sequence(seq):
@@ -106,6 +108,11 @@ def run_sequence(seq):
             if pickle.load is not saved_obj:
                 return {"what": "leaving a context does not restore the very pickle.load that was in force when it was created",
                         "sequence": list(trace), "got": str(classify("pickle.load", pickle.load)), "want": str(saved_model)}
+        elif op_ == "probe-load-that-raises":
+            try:
+                pickle.load(io.BytesIO(RAISING_BENIGN))
+            except Exception:  # noqa
+                pass
         elif op_ in ("probe-load", "probe-loads"):
             name = "pickle.load" if op_ == "probe-load" else "pickle.loads"
             sys.modules.pop("verif_hook_marker", None)
@@ -149,7 +156,7 @@ def run_sequence(seq):
             got = classify(n, now[n])
             if got != model[n]:
                 return {"what": f"after `{op_}` {n} is {got}, the statement gives {model[n]}", "sequence": list(trace), "binding": n}
-        if op_ in ("arm", "enter", "leave", "leave-exc", "probe-load", "probe-loads"):
+        if op_ in ("arm", "enter", "leave", "leave-exc", "probe-load", "probe-loads", "probe-load-that-raises"):
             for n in NAMES:
                 if n != "pickle.load" and now[n] is not before[n]:
                     return {"what": f"`{op_}` re-bound {n}", "sequence": list(trace), "binding": n}
